@@ -7,9 +7,10 @@
    differs; 5 parser model disagrees with ParseGroup (error / structure);
    6 printer model disagrees with String(); 7 String() does not re-parse to an
    equivalent selector; 8 the implementation panicked; 10 a parsed selector is outside the normal form
-   SelRoundtrip.normal_group or the model's print/parse round trip changes it; 9 malformed case, or the dumped tree violates
+   SelRoundtrip.normal_group or the model's print/parse round trip changes it; 20 / 21 the implementation (and the model) still deviate from Selectors 4 on the
+   witness of C05_has_relative_refuted / C05_blank_attr_refuted (known findings); 9 malformed case, or the dumped tree violates
    the invariants assumed of html.Parse (Sel.dom_wfb). *)
-From Verif Require Export Css.Sel Css.SelParse Css.SelPrint Css.SelRoundtrip.
+From Verif Require Export Css.Sel Css.SelParse Css.SelPrint Css.SelRoundtrip Css.SelWitness.
 From Coq Require Import List NArith ZArith Bool.
 Import ListNotations.
 
@@ -23,9 +24,16 @@ Inductive selcase :=
      (each : list selobs)
      (printed : str)                   (* SelectorGroup.String() *)
      (rt : option (list sel))          (* hook dump of ParseGroup(String()) *)
+| SCsame (src : str) (g : list sel) (gbits : N) (each : list selobs) (printed : str)
+                                       (* = SC src (Some g) gbits each printed (Some g): the re-parse has the same structure *)
 | SCPanic (src : str).
 
-Inductive case := CDoc (d : node) (sels : list selcase).
+Inductive case :=
+| CDoc (d : node) (sels : list selcase)
+(* replay of the witnesses of the proved deviations (Properties/C05.v): the tree html.Parse built,
+   the parsed selector, the index of the witness node in document order, Match's answer.
+   k = 1: C05_has_relative_refuted (Selectors 4: no match); k = 2: C05_blank_attr_refuted (Selectors 4: match) *)
+| CWitness (k : N) (d : node) (g : list sel) (i : N) (impl : bool).
 
 Fixpoint mask_of (l : list bool) (i : N) : N :=
   match l with
@@ -75,9 +83,16 @@ Definition parse_code (src : str) (ast : option (list sel)) : N :=
   | _, _ => 5%N
   end.
 
-Definition sel_check (d : node) (c : selcase) : N :=
+Definition expand (c : selcase) : selcase :=
   match c with
+  | SCsame src g gbits each printed => SC src (Some g) gbits each printed (Some g)
+  | _ => c
+  end.
+
+Definition sel_check (d : node) (c : selcase) : N :=
+  match expand c with
   | SCPanic _ => 8%N
+  | SCsame _ _ _ _ _ => 9%N
   | SC src ast gbits each printed rt =>
       let pc := parse_code src ast in
       if negb (N.eqb pc 0) then pc else
@@ -107,22 +122,42 @@ Fixpoint first_code (d : node) (l : list selcase) : N :=
   end.
 
 (* the dumped tree must satisfy the invariants the theorems assume (SelProofs.dom_wfb_sound) *)
+Definition witness_check (k : N) (d : node) (g : list sel) (i : N) (impl : bool) : N :=
+  let p := nth (N.to_nat i) (all_paths d) [] in
+  if N.eqb k 1 then
+    if node_eqb d w_doc1 && group_eqb g [w_sel1] && path_eqb p w_path1 then
+      (if Bool.eqb impl (matches_group d g p) then (if impl then 20%N else 0%N) else 1%N)
+    else 9%N
+  else if N.eqb k 2 then
+    if node_eqb d w_doc2 && group_eqb g [w_sel2] && path_eqb p w_path2 then
+      (if Bool.eqb impl (matches_group d g p) then (if impl then 0%N else 21%N) else 1%N)
+    else 9%N
+  else 9%N.
+
 Definition check (c : case) : N :=
-  let 'CDoc d sels := c in if dom_wfb d then first_code d sels else 9%N.
+  match c with
+  | CDoc d sels => if dom_wfb d then first_code d sels else 9%N
+  | CWitness k d g i impl => witness_check k d g i impl
+  end.
 
 (* for replays: per selector text, the code, what the parser model returns, and the
    model's observables on the structure the implementation parsed *)
 Inductive model_sel := MS (code : N) (parsed : res (option (list sel))) (gbits : N) (each : list selobs) (printed : str).
 Definition model_out (c : case) : list model_sel :=
-  let 'CDoc d sels := c in
-  map (fun sc => match sc with
+  match c with
+  | CWitness k d g i impl =>
+      [MS (witness_check k d g i impl) (Ok (Some g)) (bits d (matches_group d g)) (map (model_obs d) g) (print_group g)]
+  | CDoc d sels =>
+  map (fun sc => match expand sc with
                  | SCPanic src => MS 8%N (parse_group src) 0%N [] []
+                 | SCsame src _ _ _ _ => MS 9%N (parse_group src) 0%N [] []
                  | SC src ast _ _ _ _ =>
                      match ast with
                      | Some g => MS (sel_check d sc) (parse_group src) (bits d (matches_group d g)) (map (model_obs d) g) (print_group g)
                      | None => MS (sel_check d sc) (parse_group src) 0%N [] []
                      end
-                 end) sels.
+                 end) sels
+  end.
 
 Fixpoint mismatches (i : N) (cs : list case) : list (N * N) :=
   match cs with
